@@ -457,13 +457,18 @@ def pipeline(c):
     by_own = {}
     for k in cases:
         by_own.setdefault(json.dumps(k["own"], sort_keys=True), []).append(k)
-    nsess = 300 if not thorough else 3000
+    nsess = 700 if not thorough else 6000
     sess_jobs = [[] for _ in range(nb)]
     base = len(cases) + 1000
     for si in range(nsess):
         group = by_own[rnd.choice(sorted(by_own))]
-        seq = [rnd.choice(group) for _ in range(rnd.randint(2, 4))]
-        seq = [k for k in seq if not k["shape"]["over"]] + [k for k in seq if k["shape"]["over"]][:1]
+        fw = [k for k in group if k["forwarded"] and not k["shape"]["over"]]
+        if fw and si % 3 != 0:
+            # a relayed request first (anything the proxy might cache per connection is now warm), then anything
+            seq = [rnd.choice(fw) for _ in range(rnd.randint(1, 2))] + [rnd.choice(group)]
+        else:
+            seq = [rnd.choice(group) for _ in range(rnd.randint(2, 4))]
+            seq = [k for k in seq if not k["shape"]["over"]] + [k for k in seq if k["shape"]["over"]][:1]
         own = seq[0]["own"]
         uid = 0 if own["elevated"] else rnd.choice([1, 2, 65534])
         bi = si % nb
